@@ -263,7 +263,7 @@ def _pareto_obls():
                  '%s.is_pareto_optimal_against, strict and non-strict (recursive split of the points)' % a,
                  '2 points vs 1 point x 2 coordinates', env={'VERIF_PARETO': a}))
   for a in ['fast1', 'fast2']:
-    out.append(O('C11.%s_against_4v1' % a, 'harness.c11_pareto', 'against_4v1_distinct_x', None, 1500,
+    out.append(O('C11.%s_against_4v1' % a, 'harness.c11_pareto', 'against_4v1_distinct_x', 200 if a == 'fast1' else None, 1500,
                  '%s.is_pareto_optimal_against on 4 points with distinct first coordinates (the recursion really splits)' % a,
                  '4 points (x fixed distinct, y arbitrary) vs 1 arbitrary point, strict and non-strict',
                  env={'VERIF_PARETO': a}))
